@@ -154,6 +154,7 @@ def run(ctx):
         from . import c02_frame
         c02_frame.run_frame(ctx)
         c02_frame.run_frame_writers(ctx)
+        c02_frame.run_header_structs(ctx)
     except ImportError:
         ctx.assume("frame.* rules not built yet")
     ctx.assume("that assert_eq!(size, v.len()) in the default writers never fires is derived from size.write-agree, not separately proven")
